@@ -24,19 +24,21 @@ TRUSTED = ["numpy array construction, comparison and astype casts modelled as ma
            "Python str.upper / bytes / dict semantics used by the sequence constructors"]
 ASSUMPTIONS = ["k-mer arithmetic is modelled over unbounded integers; the real code uses int64, the tie holds for len(base)**k < 2**63",
                "alphabets have pairwise distinct symbols (the constructors do not enforce it; duplicates are outside the property)"]
-LEVEL_TEXT = ("Lean 4 proof for all inputs of: encode/decode bijection and exact AlphabetError rejection for generic alphabets; "
-              "the 256-entry table codec of codec.pyx and the repaired LetterAlphabet.decode_multiple refine the generic model "
-              "(so a code >= 256 is rejected, never wrapped); mixed-radix fuse/split bijection for every base and k and exact "
-              "rejection by split; sequence laws for construction/str, +, reverse, ==; complete translation = codon-wise "
-              "table lookup and the radix-4 codon-number bijection; complement involution + IUPAC pairing, protein 1<->3 letter "
-              "dicts, PRINTABLES and all shipped codon tables by decide on tables regenerated from the source. PARTIAL: "
-              "KmerAlphabet.fuse's range test is defective in the .pyx (known findings; its rejection theorem is _partial with a "
-              "_defect witness); AlphabetMapper preservation, rolling/spaced create_kmers = map fuse over windows, ORF "
-              "exactness, indexing/assignment laws and custom CodonTable construction are modelled and checked by "
-              "correspondence + an independent oracle only (no theorem).")
+LEVEL_TEXT = ("Lean 4 proof for all inputs (no size bound) of: encode/decode bijection and exact AlphabetError rejection for generic "
+              "alphabets; the 256-entry table codec of codec.pyx and the repaired LetterAlphabet.decode_multiple refine the generic "
+              "model (a code >= 256 is rejected, never wrapped); AlphabetMapper preserves symbols whenever the target contains the "
+              "source; sequence laws for construction/str, index (incl. negative, IndexError), slice, item and slice assignment "
+              "(incl. AlphabetError/ValueError rejection), +, reverse, ==; mixed-radix fuse/split bijection for every base and k, "
+              "exact rejection by split; rolling create_kmers and spaced create_kmers (for every spacing the constructor accepts) = "
+              "guarded fuse mapped over the windows, error cases included; CodonTable(dict) array lookup = dict lookup and complete "
+              "translation = codon-by-codon dict lookup; ORF exactness of translate(complete=False) incl. met_start and order; "
+              "complement involution + IUPAC pairing, protein 1<->3 letter dicts, PRINTABLES and all shipped codon tables by decide "
+              "on tables regenerated from the source. PARTIAL: KmerAlphabet.fuse's own range test is defective in the .pyx (three "
+              "known findings; its rejection theorem is _partial with a _defect witness and an _after_fix statement); slices are "
+              "numpy views in the real code (aliasing) - the value-semantic model asserts nothing about mutation after slicing.")
 LEVEL_NOTE = ("model tied to the code by a differential harness on seeded op scripts and by regenerated tables; numpy "
               "casts/broadcasting and int64 overflow of k-mer codes are modelled, not verified")
-TECHNIQUE = "Lean 4 proof (structural induction over symbol/code lists, decide on regenerated tables) + correspondence"
+TECHNIQUE = "Lean 4 proof (structural induction over symbol/code/window/codon lists, sortedness + permutation argument for the ORF order, decide on regenerated tables) + correspondence"
 
 
 # ---------------------------------------------------------------- translator (Gen)
